@@ -759,7 +759,7 @@ var c05Names = []string{"key.pem", "cert.der", "x", "authorized_keys2", "my_know
 	"authorized_keys.pub", "id_rsa", "a b.txt", "ünï.key", "-", ".hidden", "AUTHORIZED_KEYS", "Known_Hosts",
 	"sub/known_hosts.d/file", "authorized_keys/inner", "known_hosts/authorized_keys.bak", "file.b64", "data.bin", "README"}
 
-func randName(r *Rng) string {
+func c05_randName(r *Rng) string {
 	if r.Intn(3) > 0 {
 		return c05Names[r.Intn(len(c05Names))]
 	}
@@ -954,7 +954,7 @@ func genC05(c *Ctx) {
 		c05RemoveFile(c, refPath)
 		// raw DER under several names (two of them reserved: outside the property, correspondence only)
 		c05Insp(c, o.kind+":der", "object.bin", o.der, refObs, true)
-		c05Insp(c, o.kind+":der-name", randName(r), o.der, refObs, true)
+		c05Insp(c, o.kind+":der-name", c05_randName(r), o.der, refObs, true)
 		if oi%8 == 0 || c.Thorough() {
 			c05Insp(c, o.kind+":der-reserved-name", []string{"authorized_keys", "known_hosts", "sub/authorized_keys", ".ssh/known_hosts"}[r.Intn(4)], o.der, refObs, false)
 		}
@@ -970,7 +970,7 @@ func genC05(c *Ctx) {
 			}
 			name := "object.txt"
 			if (pi+oi)%3 == 0 {
-				name = randName(r)
+				name = c05_randName(r)
 			}
 			c05Insp(c, o.kind+":"+p.tag, name, p.data, refObs, p.inScope)
 			if (pi+oi)%11 == 0 {
@@ -989,9 +989,9 @@ func genC05(c *Ctx) {
 		}
 		// CLI: file argument vs standard input, for the DER and one other presentation
 		if oi%3 == 0 || c.Thorough() {
-			c05CLI(c, "der", randName(r), o.der)
+			c05CLI(c, "der", c05_randName(r), o.der)
 			p := pres[r.Intn(len(pres))]
-			c05CLI(c, "pres", randName(r), p.data)
+			c05CLI(c, "pres", c05_randName(r), p.data)
 		}
 		// the label switch on the object's own bytes: every known label, case variants
 		if oi%5 == 0 || c.Thorough() {
